@@ -65,7 +65,7 @@ def rows_for(f, name):
 
 def check_residuals(P, R):
     from ..engines import dimrun
-    n, _ = dimrun.route(P, R, ["fa.fn_x", "fa.fn_x_ih", "fa.fn_z_i", "fa.fn_y_i", "fa.latent_x_i"], rules=["DIM.", "EXT."], where_prefix=["factor_analysis:"])
+    n, _ = dimrun.route(P, R, ["fa.fn_x", "fa.fn_x_ih", "fa.fn_z_i", "fa.fn_y_i", "fa.latent_x_i", "fa.update_z", "fa.update_y"], rules=["DIM.", "EXT."], where_prefix=["factor_analysis:"])
     R.floor("DIM/EXT obligations (residual kernels)", n, 8)
     for name in ("_compute_fn_x_ih", "_compute_fn_z_i", "_compute_fn_y_i", "_compute_fn_x"):
         f = P.func(FA + name)
